@@ -32,7 +32,7 @@ CLAUSES = ["grid:count", "grid:spacing-equals-sampling", "grid:first-equals-star
            "line:first-equals-start", "line:last-vs-end", "line:collinear", "line:axes-coordinates", "line:request-honoured",
            "probe:on-grid-roll", "probe:fractional-shift", "probe:axes-coordinates", "probe:default-centre"]
 QUICK = dict(n=900, time=40)
-THOROUGH = dict(n=24000, time=180, shards=16)
+THOROUGH = dict(n=192000, time=480, shards=16)
 
 
 # --------------------------------------------------------------------------- generation
